@@ -58,7 +58,10 @@ Section Steps.
       Some (St rest t m, out)
     end.
 
-  Inductive label := LPush (alerts : list Z) | LTake | LCrit (out : list Z).
+  (* LTerm: a popper waiting in Pop's select sees its termination channel and
+     returns nil WITHOUT having received the token: nothing changes. Once a
+     popper has received the token (LTake) it always goes on to LCrit. *)
+  Inductive label := LPush (alerts : list Z) | LTake | LCrit (out : list Z) | LTerm.
 
   Definition zlist_eqb := list_eqb Z.eqb.
 
@@ -67,6 +70,7 @@ Section Steps.
     match l with
     | LPush a => Some (push s a)
     | LTake => take s
+    | LTerm => Some s
     | LCrit out =>
       match crit s with
       | Some (s', o) => if zlist_eqb o out then Some s' else None
@@ -122,8 +126,10 @@ Inductive case :=
    mutex held by the harness (it receives the token and blocks on the mutex) and
    the pushes [mids] are started one by one, each blocking on the mutex; the
    mutex is released; observed: Pop's batch and the final queue and token. The
-   order in which the blocked calls got the mutex is not observed. *)
-| CMid (cap batch : Z) (pre mids : list (list Z)) (out : list Z) (after : ostate)
+   order in which the blocked calls got the mutex is not observed. With [term]
+   the popper's termination channel is closed while it waits for the mutex
+   (after it received the token); [nilret]: Pop returned nil. *)
+| CMid (cap batch : Z) (pre mids : list (list Z)) (term : bool) (out : list Z) (nilret : bool) (after : ostate)
 | CSkip.
 
 (* negative ids carry the label the relabel configuration drops *)
@@ -183,8 +189,10 @@ Definition corr_ok (c : case) : bool :=
       | None => negb woken && ostate_eqb s1 after
       end
   | CConc _ _ _ _ _ _ => true      (* schedule chosen by the Go runtime: only the predicate applies *)
-  | CMid cap batch pre mids out after =>
-      (* the observation is explained by one of the schedules of the model *)
+  | CMid cap batch pre mids _ out nilret after =>
+      (* a popper holding the token never gives up; the observation is explained by
+         one of the schedules of the model *)
+      negb nilret &&
       existsb (fun tr => accepts cap batch tr after) (mid_candidates pre mids out)
   | CSkip => true
   end.
@@ -299,7 +307,7 @@ Definition pred_ok (c : case) : bool :=
              let mine := filter (fun a => (p * 1000000 <=? a) && (a <? (p + 1) * 1000000)) (concat bs) in
              is_subseq mine (map (fun i => p * 1000000 + i) (seqZ 0 (Z.to_nat per_pusher))))
              (seqZ 0 (Z.to_nat pushers))) batches
-  | CMid cap batch pre mids out after =>
+  | CMid cap batch pre mids _ out _ after =>
       (* holds for the order in which the blocked calls actually ran: one of the candidates *)
       existsb (fun tr => obs_pred cap batch tr after) (mid_candidates pre mids out)
   | CSkip => true
